@@ -142,6 +142,11 @@ w_backtrack(N, R) :-
     forall(member(Q, L), integer(Q)),
     length(Ps, Len), R = Len-A.
 
+% the protected goal of setup_call_cleanup/3 throws; the cleanup then does real work while
+% that exception is parked (its own catch-all is library code, not the workload's)
+w_sccthrow(N, R) :-
+    catch(setup_call_cleanup(true, (w_list(N, _), throw(w_ball(N))), w_list(N, _)), w_ball(M), R = caught(M)).
+
 w_chars(N, R) :-
     numlist(1, N, L),
     maplist(w_num_chars, L, Css), append(Css, All), length(All, Len),
